@@ -57,6 +57,8 @@ LDef == Language("org.verif.def",
      Asset("Ea", "Da", <<>>,
        << Def("extra", Enabled, NoR),
           Def("off", Enabled, NoR),          \* no reaches clause: Da's declaration stays (still Disabled)
+          Def("bare", Enabled, Ovr(<< St("x") >>)),   \* '->' replaces the inherited definition (now Enabled)
+          Def("bern", Enabled, Ext(<< St("x") >>)),   \* '+>' keeps the inherited definition (still Bernoulli)
           Or("y", Ext(<< Col(F("par"), St("y")) >>)) >>) >>,
   << Assoc("Tree", "Da", "par", 0, 1, 0, -1, "kids", "Da") >>)
 
@@ -89,6 +91,15 @@ LTiny == Language("org.verif.tiny",
   << AssocMany("Lk", "Ta", "ls", "rs", "Ta"),
      Assoc("Uu", "Ua", "ul", 0, 1, 0, 2, "ur", "Ua") >>)
 
-Library == << LSet, LTrans, LVar, LDef, LInh, LDup, LTiny >>
-LibraryNames == << "LSet", "LTrans", "LVar", "LDef", "LInh", "LDup", "LTiny" >>
+(* --- a single type: every multiplicity form on reflexive associations ------- *)
+LOne == Language("org.verif.one",
+  << Asset("Oa", NONE, <<>>,
+       << Def("g", Enabled, NoR),
+          Or("s", Ovr(<< Col(F("mr"), St("s")), Col(F("tr"), St("s")) >>)) >>) >>,
+  << AssocMany("Many", "Oa", "ml", "mr", "Oa"),
+     Assoc("Two", "Oa", "tl", 0, 2, 1, 2, "tr", "Oa"),
+     Assoc("Uno", "Oa", "ul", 0, 1, 1, 1, "ur", "Oa") >>)
+
+Library == << LSet, LTrans, LVar, LDef, LInh, LDup, LTiny, LOne >>
+LibraryNames == << "LSet", "LTrans", "LVar", "LDef", "LInh", "LDup", "LTiny", "LOne" >>
 =============================================================================
